@@ -782,6 +782,10 @@ func (c *Ctx) opsxRun() []*opsVerdict {
 					expect(vu, "Lsh", t, int64(1), "Integer", k, true, "")
 					expect(vu, "Rsh", t, int64(1), "Integer", k, true, "")
 				}
+				for _, k := range []int64{1, 31, 32, 33, 47} {
+					expect(vu, "Lsh", t, int64(1), "Integer", k, false, fmt.Sprint(int64(1)<<uint(k)))
+					expect(vu, "Rsh", t, int64(1)<<50, "Long", k, false, fmt.Sprint((int64(1)<<50)>>uint(k)))
+				}
 				expect(vu, "Lsh", t, int64(1), "Integer", int64(0), false, "1")
 				expect(vu, "Lsh", t, int64(1), "Integer", int64(62), false, fmt.Sprint(int64(1)<<62))
 				expect(vu, "Lsh", t, int64(1), "Long", int64(63), false, "-9223372036854775808")
@@ -801,6 +805,58 @@ func (c *Ctx) opsxRun() []*opsVerdict {
 			expect(vm, "GetElement", "String", lit("aжb"), "Integer", int64(-1), true, "")
 			expect(vm, "GetElement", "String", lit(""), "Integer", int64(0), true, "")
 			expect(vm, "GetElement", "Integer", int64(5), "Integer", int64(0), true, "")
+			// Null propagates through membership and indexing too; nothing is found in an empty list
+			{
+				mkArr := func(n int) mv {
+					var es []mv
+					for i := 0; i < n; i++ {
+						es = append(es, h.variant("Integer", int64(i+1)))
+					}
+					a, _ := h.m.Call(c.MustFunc(pkgVariants, "", "VariantFromArray"), mSlice{es})
+					return a
+				}
+				null := func() mv { return h.variant("Null", nil) }
+				for _, tc := range []struct {
+					op, what string
+					a, b     mv
+					want     string
+				}{
+					{"In", "In(Null, Integer 1)", null(), h.variant("Integer", int64(1)), "Null"},
+					{"In", "In(Array [1 2], Null)", mkArr(2), null(), "Null"},
+					{"In", "In(Null, Null)", null(), null(), "Null"},
+					{"In", "In(Array [], Null)", mkArr(0), null(), "Null"},
+					{"In", "In(Array [], Integer 1)", mkArr(0), h.variant("Integer", int64(1)), "Boolean false"},
+					{"In", "In(Array [1 2], Integer 2)", mkArr(2), h.variant("Integer", int64(2)), "Boolean true"},
+					{"In", "In(Array [1 2], Integer 3)", mkArr(2), h.variant("Integer", int64(3)), "Boolean false"},
+					{"GetElement", "GetElement(Null, Integer 0)", null(), h.variant("Integer", int64(0)), "Null"},
+					{"GetElement", "GetElement(Array [1 2], Null)", mkArr(2), null(), "Null"},
+				} {
+					vm.runs++
+					r, out := h.m.Call(c.lookupMethod(h.mgrT, tc.op), h.mgr, tc.a, tc.b)
+					tp, ok := r.(mTuple)
+					switch {
+					case out.kind == "panic":
+						if vm.bad == "" {
+							vm.bad = fmt.Sprintf("%s.%s panics: %s", manager, tc.what, out.why)
+						}
+					case out.kind != "ok" || !ok:
+						if vm.undec == "" {
+							vm.undec = fmt.Sprintf("%s.%s: %s", manager, tc.what, out.why)
+						}
+					default:
+						got := "error " + errorCode(tp[1])
+						if _, isNil := tp[1].(mNilT); isNil {
+							got = h.typeOf(tp[0])
+							if got != "Null" {
+								got += " " + h.payloadOf(tp[0])
+							}
+						}
+						if got != tc.want && vm.bad == "" {
+							vm.bad = fmt.Sprintf("%s.%s gives %s; Null propagates through every operator except equality and NOT, and list semantics give %s", manager, tc.what, got, tc.want)
+						}
+					}
+				}
+			}
 			// membership: true iff some element equals the searched value, each element converted to the searched value's type
 			vm.runs++
 			var convs []string
